@@ -8,7 +8,7 @@ import codec as C
 import drive
 import p_filter as PF
 
-LEAN_TARGETS = ["Verif.Props.C15", "Verif.Props.Ties"]
+LEAN_TARGETS = ["Verif.Props.C15", "Verif.Props.Ties", "Verif.Props.C13More"]
 LEVEL = "proof"
 ASSUMPTIONS = [
     "text is a str that from_string can encode: Unicode scalar values and the surrogate-escape code points U+DC80..U+DCFF (which stand for the bytes "
